@@ -23,15 +23,16 @@ theorem land_one_lt (x : Nat) : Nat.land x 1 % 256 = Nat.land x 1 := by
 def bitAt (n : L4) (i : Nat) : Nat := Nat.land (limb n (i / 64) >>> (i % 64)) 1
 
 theorem bits_loop (n : L4) (k : Nat) (out : List Nat) (hk : k ≤ 256) (hl : out.length = 256) :
-    (List.range k).foldlM (GenScalarCodec.scalar_bits_loop1 n) out = some ((List.range k).map (bitAt n) ++ out.drop k) := by
+    (List.range' 0 k).foldlM (fun st i => GenScalarCodec.scalar_bits_loop1 n i st) out =
+      some ((List.range k).map (bitAt n) ++ out.drop k) := by
   induction k with
   | zero => simp
   | succ k ih =>
-    rw [List.range_succ, List.foldlM_append, ih (by omega)]
+    rw [List.range'_concat, List.foldlM_append, ih (by omega)]
     have hlen : k < ((List.range k).map (bitAt n) ++ out.drop k).length := by
       simp; omega
     simp only [Option.bind_eq_bind, Option.bind_some, List.foldlM_cons, List.foldlM_nil, GenScalarCodec.scalar_bits_loop1,
-      limbAt_eq n (k / 64) (by omega), land_one_lt, Option.pure_def]
+      Nat.zero_add, Nat.one_mul, limbAt_eq n (k / 64) (by omega), land_one_lt, Option.pure_def]
     unfold Prim.store
     simp only [hlen, if_true, Option.bind_some]
     congr 1
@@ -39,10 +40,11 @@ theorem bits_loop (n : L4) (k : Nat) (out : List Nat) (hk : k ≤ 256) (hl : out
     rw [List.set_append_right _ _ (by simp)]
     simp only [List.length_map, List.length_range, Nat.sub_self]
     rw [hd, List.set_cons_zero]
-    simp [bitAt]
+    simp [bitAt, List.range_succ]
 
 theorem bitsOf_loop (n : L4) :
-    (List.range 256).foldlM (GenScalarCodec.scalar_bits_loop1 n) (List.replicate 256 0) = some (bitsOf n) := by
+    Prim.forBelow 0 256 (List.replicate 256 0) (GenScalarCodec.scalar_bits_loop1 n) = some (bitsOf n) := by
+  unfold Prim.forBelow
   rw [bits_loop n 256 _ (Nat.le_refl _) List.length_replicate]
   have h0 : (List.replicate 256 0).drop 256 = ([] : List Nat) := by
     rw [List.drop_replicate]; rfl
